@@ -293,6 +293,18 @@ def run_graph(ctx, spec, rng, n_ops):
           n_np += 1
       if n_np:
         ctx.check(G.canon(g) == G.canon(sh.root), 'clone:shares_numpy_buffer', lambda: dict(numpy_leaves=n_np))
+      # mutable metadata VALUES (a list / dict stored as Variable metadata) must not be shared either
+      c3 = nnx.clone(g)
+      n_meta = 0
+      for _, v in G.ref_leaves(c3):
+        if G._is_var(v):
+          notes = v.get_metadata().get('notes')
+          if isinstance(notes, list):
+            notes.append('POISON')
+            notes[1]['k'] = 'POISON'
+            n_meta += 1
+      if n_meta:
+        ctx.check(G.canon(g) == G.canon(sh.root), 'clone:shares_mutable_metadata_value', lambda: dict(variables=n_meta))
     elif op in ('update', 'partial_update', 'update_from_merge'):
       st = nnx.state(g)
       if op == 'partial_update':
